@@ -26,6 +26,21 @@ func (u *Upper) UnmarshalFlag(v string) error {
 
 func (u Upper) MarshalFlag() (string, error) { return strings.ToLower(u.S), nil }
 
+// OnOff is a bool-kinded type with its own Unmarshaler: it takes an argument ("on"/"off") although its kind is bool.
+type OnOff bool
+
+func (o *OnOff) UnmarshalFlag(v string) error {
+	switch v {
+	case "on":
+		*o = true
+	case "off":
+		*o = false
+	default:
+		return fmt.Errorf("onoff: %q is neither on nor off", v)
+	}
+	return nil
+}
+
 // Picky is a string with a ValueValidator: refuses separate-token values starting with "no".
 type Picky string
 
@@ -104,6 +119,20 @@ func (e *ExecCmdPos) Execute(args []string) error {
 	return e.st.Err
 }
 
+// ExecCmdPosInt is an executable command whose first positional is an int.
+type ExecCmdPosInt struct {
+	st   *ExecState
+	Args struct {
+		First int
+		Rest  []string
+	} `positional-args:"yes" required:"yes"`
+}
+
+func (e *ExecCmdPosInt) Execute(args []string) error {
+	*e.st.log = append(*e.st.log, ExecCall{Via: "execute", Cmd: e.st.ID, Args: append([]string{}, args...)})
+	return e.st.Err
+}
+
 // Type describes the Go type of an option or positional field.
 type Type struct {
 	Name string
@@ -147,6 +176,7 @@ var (
 	TPUpper   = &Type{"*Upper", reflect.TypeOf((*Upper)(nil))}
 	TUppers   = &Type{"[]Upper", reflect.TypeOf([]Upper{})}
 	TPicky    = &Type{"Picky", reflect.TypeOf(Picky(""))}
+	TOnOff    = &Type{"OnOff", reflect.TypeOf(OnOff(false))}
 	TWords    = &Type{"Words", reflect.TypeOf(Words(""))}
 	TWords2   = &Type{"Words2", reflect.TypeOf(Words2(""))}
 	TWordss   = &Type{"[]Words", reflect.TypeOf([]Words{})}
